@@ -7,11 +7,13 @@ Statements about `Model/StakePool.lean` (`DistributeRewards`, `DistributeRewards
 
 `Upd` is what the Go code records in `spUpdate` (provider reward + per-delegate rewards): the increments.
 
-* `distribute_exact`            — if the service charge does not exceed the value, provider + delegates = value (ℕ, no wrap)
+* `serviceCharge_le_value`      — the service charge never exceeds the value (since repair 20328ad the code caps it)
+* `distribute_exact`            — FULL: for every value < 2^64, every ratio, every pool set: provider + delegates = value (ℕ, no wrap)
 * `distribute_state`            — and the stored delegate rewards (and the provider's) move by exactly those increments
-* `serviceCharge_le_value_partial` — that hypothesis holds for `ratio ∈ [0,1]`, `value < 2^53`
-* `serviceCharge_exceeds_value_witness`, `distribute_not_exact_witness` — and FAILS at `value = 2^53+3`, `ratio = 1.0`:
-  the full property (“any amount”) is false of the code; the built-in assertion passes because its sum wraps too
+* `serviceCharge_defined_partial` — for `ratio ∈ [0,1]`, `value < 2^53` the charge is defined (no error) and uncapped
+* `serviceCharge_capped_witness`, `distribute_capped_witness` — at `value = 2^53+3`, `ratio = 1.0` (`float64(value)`
+  rounds up to `value+1`; before 20328ad the provider was credited `value+1` and the delegates ~2^64, the built-in
+  assertion passing because its sum wrapped too) the charge is now exactly `value`, nothing is left for the delegates
 * `randN_exact` / `randN_at_most_N` — the RandN variant, when the selected delegates hold stake
 * `randN_zero_stake_drops_witness` — and NOT when they hold none (`N = 0`, or only zero-balance pools selected)
 * `dead_or_understaked_gets_nothing`
@@ -73,13 +75,20 @@ theorem prefixPart_cases {sp : SP} {value : Nat} {pre : Pre} (h : prefixPart sp 
 
 /-! ## exactness of `DistributeRewards` -/
 
+/-- **serviceCharge_le_value** (the cap `if serviceCharge > value { serviceCharge = value }`). -/
+theorem serviceCharge_le_value {sp : SP} {value sc : Nat} (h : serviceChargeOf sp value = .ok sc) : sc ≤ value := by
+  unfold serviceChargeOf at h
+  obtain ⟨sc0, _, h⟩ := bind_ok h
+  injection h with h
+  rw [← h]; split <;> omega
+
 /-- **distribute_exact.** Whenever `DistributeRewards` succeeds and moves something, and the float-computed
-service charge does not exceed the value, the provider's reward plus the delegates' rewards recorded for the call
+something, the provider's reward plus the delegates' rewards recorded for the call
 add up to **exactly** the value (as natural numbers: nothing wraps), for any number of pools, any balances
 (zero stakes included), any ratio; the provider's stored reward grows by exactly its part. -/
 theorem distribute_exact (sp : SP) (value : Nat) (sp' : SP) (u : Upd) (hv : value < U64)
     (h : distributeRewards sp value = .ok (sp', some u))
-    (hsc : ∀ sc, serviceChargeOf sp value = .ok sc → sc ≤ value) :
+    :
     u.reward + u.dr.sum = value ∧ sp'.reward = sp.reward + u.reward := by
   unfold distributeRewards at h
   obtain ⟨pre, hpre, h⟩ := bind_ok h
@@ -90,7 +99,7 @@ theorem distribute_exact (sp : SP) (value : Nat) (sp' : SP) (u : Upd) (hv : valu
     injection h2 with h2; subst h1 h2
     obtain ⟨e, _⟩ := addCoin_ok hnr
     exact ⟨by simp, e⟩
-  · have hle := hsc sc hsc1
+  · have hle := serviceCharge_le_value hsc1
     have hws : wrapSub value sc = value - sc := wrapSub_of_le hv hle
     rcases hvl with ⟨hz, rfl⟩ | ⟨hz, rfl⟩
     · simp only at h; injection h with h; injection h with h1 h2
@@ -127,7 +136,6 @@ theorem distribute_exact (sp : SP) (value : Nat) (sp' : SP) (u : Upd) (hv : valu
 as long as the accumulated rewards are not within `value` of `2^64` (they are bounded by the token supply). -/
 theorem distribute_state (sp : SP) (value : Nat) (sp' : SP) (u : Upd) (hv : value < U64)
     (h : distributeRewards sp value = .ok (sp', some u))
-    (hsc : ∀ sc, serviceChargeOf sp value = .ok sc → sc ≤ value)
     (hfar : ∀ p ∈ sp.pools, p.reward + value < U64) :
     R3 sp.pools sp'.pools u.dr := by
   unfold distributeRewards at h
@@ -138,7 +146,7 @@ theorem distribute_state (sp : SP) (value : Nat) (sp' : SP) (u : Upd) (hv : valu
   · simp only at h; injection h with h; injection h with h1 h2
     injection h2 with h2; subst h1 h2
     simp only [he]; exact R3.nil
-  · have hle := hsc sc hsc1
+  · have hle := serviceCharge_le_value hsc1
     have hws : wrapSub value sc = value - sc := wrapSub_of_le hv hle
     rcases hvl with ⟨hz, rfl⟩ | ⟨hz, rfl⟩
     · simp only at h; injection h with h; injection h with h1 h2
@@ -171,58 +179,48 @@ theorem distribute_state (sp : SP) (value : Nat) (sp' : SP) (u : Upd) (hv : valu
           simp only
           rw [← hp1]; exact hfin
 
-/-- **serviceCharge_le_value_partial.** For a finite ratio in `[0,1]` and `value < 2^53` the float-computed
-service charge `uint64(ratio * float64(value))` is defined and `≤ value` — the hypothesis of `distribute_exact`. -/
-theorem serviceCharge_le_value_partial (sp : SP) (value m E : Nat) (hr : sp.ratio = .fin false m E)
+/-- **serviceCharge_defined_partial.** For a finite ratio in `[0,1]` and `value < 2^53` the float-computed service
+charge `uint64(ratio * float64(value))` is defined (no error class) and already `≤ value`: the cap is not needed. -/
+theorem serviceCharge_defined_partial (sp : SP) (value m E : Nat) (hr : sp.ratio = .fin false m E)
     (hle : m * 2 ^ E ≤ 2 ^ 1074) (hv : value < 2 ^ 53) :
-    ∃ sc, serviceChargeOf sp value = .ok sc ∧ sc ≤ value := by
+    ∃ sc, float64ToCoin (F64.mul sp.ratio (toFloat64 value)) = .ok sc ∧ sc ≤ value ∧ serviceChargeOf sp value = .ok sc := by
   obtain ⟨n, hn, hnle⟩ := F64.toNatTrunc_mul_le value hv m E hle
-  refine ⟨n, ?_, hnle⟩
-  unfold serviceChargeOf float64ToCoin toFloat64
-  rw [hr, F64.mul_comm, hn]
-  have hnn : F64.lt (F64.mul (F64.ofNat value) (.fin false m E)) F64.zero = false := by
-    obtain ⟨mc, Ec, hof, _, _⟩ := F64.ofNat_exact value hv
-    rw [hof]
-    show F64.lt (F64.roundDiv (false != false) _ _) F64.zero = false
-    rw [F64.roundDiv_eq]
-    split
-    · rfl
-    · simp only [F64.lt, F64.sval, F64.zero, bne_self_eq_false, Bool.false_eq_true, if_false]
-      simp
-  rw [hnn]
-  rfl
+  have h1 : float64ToCoin (F64.mul sp.ratio (toFloat64 value)) = .ok n := by
+    unfold float64ToCoin toFloat64
+    rw [hr, F64.mul_comm, hn]
+    have hnn : F64.lt (F64.mul (F64.ofNat value) (.fin false m E)) F64.zero = false := by
+      obtain ⟨mc, Ec, hof, _, _⟩ := F64.ofNat_exact value hv
+      rw [hof]
+      show F64.lt (F64.roundDiv (false != false) _ _) F64.zero = false
+      rw [F64.roundDiv_eq]
+      split
+      · rfl
+      · simp only [F64.lt, F64.sval, F64.zero, bne_self_eq_false, Bool.false_eq_true, if_false]
+        simp
+    rw [hnn]
+    rfl
+  refine ⟨n, h1, hnle, ?_⟩
+  unfold serviceChargeOf
+  rw [h1]
+  simp only [liftC, bind, Except.bind]
+  rw [if_neg (by omega)]
 
-/-- combined: below `2^53` with a ratio in `[0,1]`, `DistributeRewards` is exact. -/
-theorem distribute_exact_partial (sp : SP) (value : Nat) (sp' : SP) (u : Upd) (m E : Nat)
-    (hr : sp.ratio = .fin false m E) (hle : m * 2 ^ E ≤ 2 ^ 1074) (hv : value < 2 ^ 53)
-    (h : distributeRewards sp value = .ok (sp', some u)) :
-    u.reward + u.dr.sum = value ∧ sp'.reward = sp.reward + u.reward := by
-  have hv64 : value < U64 := Nat.lt_of_lt_of_le hv (by decide)
-  apply distribute_exact sp value sp' u hv64 h
-  intro sc hsc
-  obtain ⟨sc', h1, h2⟩ := serviceCharge_le_value_partial sp value m E hr hle hv
-  rw [h1] at hsc; injection hsc with hsc; omega
-
-/-! ## … and the full statement is false of the code (negation witnesses) -/
+/-! ## the repaired rounding case (historical negation witness) -/
 
 def witnessSP : SP :=
   { pools := [⟨1000, 0⟩, ⟨1000, 0⟩], reward := 0, minStake := 0, ratio := F64.one, killed := false }
 
-/-- at `value = 2^53 + 3`, ratio `1.0`: `float64(value)` is a tie and rounds up, the service charge is `value + 1`. -/
-theorem serviceCharge_exceeds_value_witness :
-    serviceChargeOf witnessSP (2 ^ 53 + 3) = .ok (2 ^ 53 + 4) := by decide +kernel
+/-- at `value = 2^53 + 3`, ratio `1.0`, `float64(value)` is a tie and rounds up (`F64.toNatTrunc_mul_gt_witness`): the raw
+charge would be `value + 1`; the cap makes it `value`. -/
+theorem serviceCharge_capped_witness :
+    float64ToCoin (F64.mul witnessSP.ratio (toFloat64 (2 ^ 53 + 3))) = .ok (2 ^ 53 + 4) ∧
+    serviceChargeOf witnessSP (2 ^ 53 + 3) = .ok (2 ^ 53 + 3) := by decide +kernel
 
-/-- **negation witness of the unrestricted `distribute_exact`** (replayed on the Go code by the harness, fixed case 1):
-the call SUCCEEDS — the deferred assertion passes because its `uint64` sum wraps too — and credits
-`2^53+4` to the provider and `2^63`, `2^63−1` to the two delegates: `2^64 + value` in total. -/
-theorem distribute_not_exact_witness :
+/-- the whole call: everything goes to the provider, the delegates get nothing, the sum is exact
+(before 20328ad: provider `2^53+4`, delegates `2^63` and `2^63−1`, i.e. `2^64 + value` in total). -/
+theorem distribute_capped_witness :
     distributeRewards witnessSP (2 ^ 53 + 3) =
-      .ok ({ witnessSP with reward := 2 ^ 53 + 4, pools := [⟨1000, 2 ^ 63⟩, ⟨1000, 2 ^ 63 - 1⟩] },
-           some { reward := 2 ^ 53 + 4, dr := [2 ^ 63, 2 ^ 63 - 1] }) ∧
-    (2 ^ 53 + 4) + (2 ^ 63 + (2 ^ 63 - 1)) = 2 ^ 64 + (2 ^ 53 + 3) := by
-  constructor
-  · decide +kernel
-  · decide
+      .ok ({ witnessSP with reward := 2 ^ 53 + 3 }, some { reward := 2 ^ 53 + 3, dr := [0, 0] }) := by decide +kernel
 
 /-! ## killed / under-staked providers -/
 
@@ -280,7 +278,6 @@ theorem getD_map_zero {α} (l : List α) (i : Nat) : (l.map (fun _ => 0)).getD i
 theorem randN_exact (sp : SP) (value n : Nat) (idxs : List Nat) (sp' : SP) (u : Upd) (hv : value < U64)
     (hg : GoodSel sp n idxs)
     (h : distributeRewardsRandN sp value n idxs = .ok (sp', some u))
-    (hsc : ∀ sc, serviceChargeOf sp value = .ok sc → sc ≤ value)
     (hst : stakeOf ((selectIdx sp.pools n idxs).map (fun i => sp.pools.getD i default)) ≠ .ok 0) :
     u.reward + u.dr.sum = value ∧ sp'.reward = sp.reward + u.reward := by
   unfold distributeRewardsRandN at h
@@ -292,7 +289,7 @@ theorem randN_exact (sp : SP) (value n : Nat) (idxs : List Nat) (sp' : SP) (u : 
     injection h2 with h2; subst h1 h2
     obtain ⟨e, _⟩ := addCoin_ok hnr
     exact ⟨by simp, e⟩
-  · have hle := hsc sc hsc1
+  · have hle := serviceCharge_le_value hsc1
     have hws : wrapSub value sc = value - sc := wrapSub_of_le hv hle
     rcases hvl with ⟨hz, rfl⟩ | ⟨hz, rfl⟩
     · simp only at h; injection h with h; injection h with h1 h2
